@@ -48,6 +48,10 @@ def _server_cells():
     cell("Host header twice", F, cnt={"host": 2})
     cell("Host without port", A, host="example.com")
     cell("Host with a non-numeric port", F, host="example.com:http")
+    # a Host value with more than one colon (IPv6 literal, garbage): admitted or refused with an HTTP error, but no exception may escape
+    cell("Host with an IPv6 literal and a port", "decided", host="[::1]:9000")
+    cell("Host with an IPv6 literal without port", "decided", host="[2001:db8::1]")
+    cell("Host with several colons", "decided", host="a:b:c")
     cell("Host port differs from the configured external port", F, cfg={"externalPort": 8080})
     cell("Host port equals the configured external port", A, cfg={"externalPort": 9000})
     cell("Upgrade header missing (no status page)", F, drop=("upgrade",))
@@ -119,6 +123,8 @@ def _method_env(ctx, cls, fn, env):
                     c = None
                 if c is not None and isinstance(c, (int, str)):
                     env[k] = c
+                elif isinstance(c, (tuple, list)) and all(isinstance(y, (int, str)) for y in c):
+                    env[k] = list(c)   # a class-level table of plain values
     return env
 
 
@@ -202,6 +208,10 @@ def rule_server_cells(ctx, rule_id="C07.1-server-obligations"):
             got = "neither accepts nor fails"
         else:
             got = "both fails and accepts"
+        if expect == "decided":
+            if got not in ("accept", "fail"):
+                bad.append(f"{name}: {got}, expected the request to be admitted or refused with an HTTP error")
+            continue
         if got != expect:
             bad.append(f"{name}: {got}, expected {expect}")
             continue
